@@ -244,6 +244,21 @@ def solver_cache_obligations(P):
                 foreign = [a for a in rv_key if not any(a is b or alg.atom_expr(a).eq(alg.atom_expr(b)) for b in rv_res)]
                 direct = bool(atoms & res_outer)
                 okr = not foreign and not direct
+                if okr:
+                    # ... and it must be the same floating point computation: two expressions that agree in exact arithmetic
+                    # (halo * nx / xmx and halo / (xmx / nx)) can round to different integers
+                    from interp import Interp as _In
+                    for a in rv_key:
+                        forms = []
+                        for r in runs:
+                            for p in r.rets:
+                                for e in p.events:
+                                    if e[0] == "rounding" and isinstance(e[2][0], Expr) and e[2][0].eq(alg.atom_expr(a)):
+                                        if not any(_In.fterm_equal(e[2][1], f) for _, f in forms):
+                                            forms.append((e[1], e[2][1]))
+                        if len(forms) > 1:
+                            obs.append(req_ob("R-KEY-COMPLETE", site, "the rounded form of %s in the key is computed by the same floating point expression as the one the result uses (analytic=%s)" % (pname, analytic), False,
+                                              detail="equal only in exact arithmetic: %s" % "  vs  ".join("%s at %s" % (_In.fterm_str(f), w) for w, f in forms[:3]), key={"param": pname, "analytic": analytic, "clause": "rounded-float"}))
                 obs.append(req_ob("R-KEY-COMPLETE", site, "%s enters the key only in rounded form, and that is exactly the form in which it enters the result (analytic=%s)" % (pname, analytic), okr,
                                   detail=None if okr else ("the key holds %s, the result depends on %s%s" % ([str(alg.atom_expr(a))[:80] for a in foreign][:2], [str(alg.atom_expr(a))[:80] for a in rv_res][:2], " and on the unrounded value" if direct else "")),
                                   key={"param": pname, "analytic": analytic, "clause": "rounded"}))
